@@ -226,7 +226,7 @@ def gen_case(rnd, idx, tmpdir, malformed=False, shapes=None):
             t = rnd.choice(s[3])
             s[3].insert(rnd.randrange(len(s[3]) + 1), [t[0], gen_hits(rnd), gen_time(rnd)])
         elif kind == 'beyond':
-            s[3].append([base + rnd.choice([60, 200, 5000]), gen_hits(rnd), gen_time(rnd)])
+            s[3].append([base + rnd.choice([60, 200, 600]), gen_hits(rnd), gen_time(rnd)])
         elif kind == 'before' and base > 1:
             s[3].insert(0, [base - 1, gen_hits(rnd), gen_time(rnd)])
         else:
@@ -270,10 +270,38 @@ def ties_case(tmpdir, idx, unit, ou):
                 unit=unit, output_unit=ou, combos=COMBOS, valid=True, shapes=['long'])
 
 
+def history_cases(rnd, idx, tmpdir, nsteps=3):
+    """One process, one path, several reports: the file is rewritten between the reports (the def
+    stays on its line, the body changes text and length - grown, then shrunk), and every report
+    must show the file as it is at the time of that report."""
+    d = '%s/h%d' % (tmpdir, idx)
+    fn = '%s/%s' % (d, rnd.choice(['live.py', 'reloaded_mod.py', 'lïve.py']))
+    head = rnd.choice([[], ['# hot-reloaded module', 'import os', '']])
+    unit, ou = rnd.choice(UNITS), rnd.choice(OUT_UNITS)
+    lens = rnd.sample(range(1, 12), nsteps)
+    lens[1] = max(lens) + rnd.randint(1, 6)        # step 2 is longer than step 1 ...
+    lens[-1] = min(lens[0], 3) if nsteps > 2 else lens[-1]   # ... the last one shorter
+    cases = []
+    for step, n in enumerate(lens):
+        body = ['    x = x %s %d  # v%d é' % (rnd.choice('+-*'), rnd.randint(1, 99), step) for _ in range(n)]
+        text = '\n'.join(head + ['def hot(x):'] + body + ['    return x', '', 'y = hot(%d)' % step]) + '\n'
+        (start, name, ls), = function_codes(text, fn)
+        tm = [[l, gen_hits(rnd), gen_time(rnd)] for l in ls if l > start or rnd.random() < 0.3]
+        cases.append(dict(dir=d, files={fn: text}, cells={}, stats=[[fn, start, name, tm]], unit=unit, output_unit=ou,
+                          combos=COMBOS, valid=True, shapes=['rewritten_file'], step=step))
+    return cases
+
+
 def gen_cases(tier, rnd, tmpdir):
-    n_valid, n_bad = (80, 16) if tier == 'quick' else (1600, 320)
+    n_valid, n_bad, n_hist = (80, 16, 6) if tier == 'quick' else (1600, 320, 60)
     cases = [finding_case(tmpdir, 0), ties_case(tmpdir, 1, 1.0, None), ties_case(tmpdir, 2, 1e-6, 1e-6),
              ties_case(tmpdir, 3, 1e-9, 1e-3), cell_finding_case(tmpdir, 4)]
+    for i in range(n_hist):          # histories first: all steps of one history run in one driver process
+        hs = history_cases(rnd, i, tmpdir)
+        for j, h in enumerate(hs):
+            h['history'] = [{k: p[k] for k in ('dir', 'files', 'cells', 'stats', 'unit', 'output_unit')} for p in hs[:j]]
+        cases += hs
+    assert len(cases) <= 200
     shape_names = sorted(SNIPPETS)
     for i in range(n_valid):
         # the first cases walk through every shape on its own, the rest mix them
@@ -604,7 +632,7 @@ def coq_combos(tier, k):
     for the canonical cases, else the everything-on report plus five that rotate with k, so that
     every option combination is compared inside Coq in every run; the python-side predicate sees
     all 16 reports of every case in both tiers."""
-    if tier != 'quick' or k < N_CANONICAL:
+    if tier != 'quick' or k in (0, 1, 4):      # the two regression cases and one ties case: all 16
         return set(range(16))
     return {15} | {(5 * k + i) % 16 for i in range(5)}
 
@@ -676,7 +704,9 @@ def spec_failures(cases, outs):
 
 
 def slim(case, combo):
-    c = {k: case.get(k) for k in ('dir', 'files', 'cells', 'stats', 'unit', 'output_unit', 'valid')}
+    c = {k: case.get(k) for k in ('dir', 'files', 'cells', 'stats', 'unit', 'output_unit', 'valid', 'step')}
+    if case.get('step'):
+        c['history'] = case['history']
     c['combos'] = [list(combo)]
     c['options'] = dict(zip(['stripzeros', 'sort', 'summarize', 'details'], combo))
     return c
@@ -773,7 +803,8 @@ def run(tier, seed):
              'valid stats with at least one recorded line and details or summarize on, distinct by (stats, units, options)',
         exhaustive=True,
         exhaustive_scope='all 16 (stripzeros, sort, summarize, details) combinations for every generated stats dict',
-        stats_dicts=len(cases), valid_stats=sum(c['valid'] for c in cases), malformed_stats=sum(not c['valid'] for c in cases),
+        stats_dicts=len(cases), reports_after_a_file_rewrite=16 * sum(1 for c in cases if c.get('step')),
+        valid_stats=sum(c['valid'] for c in cases), malformed_stats=sum(not c['valid'] for c in cases),
         functions_found=n_found, functions_missing_file=n_missing, functions_in_ipython_cells=n_cell, functions_without_hits=n_strip_hidden,
         functions_hits_but_zero_time=n_zero_time_fn, magnitudes=mag_hist, shapes=shape_hist,
         units=sorted({c['unit'] for c in cases}), output_units=sorted({str(c['output_unit']) for c in cases}),
@@ -811,8 +842,10 @@ def replay(path):
     new = str(tmp / 'replay')
     case = json.loads(json.dumps(case).replace(json.dumps(old)[1:-1], json.dumps(new)[1:-1]))
     case.setdefault('valid', True)
-    outs = run_cases(impl, [case], tmp)
+    # a multi-step case: the earlier reports of its history run first, in the same driver process
+    before = [dict(p, combos=case['combos'], valid=True) for p in case.get('history') or []]
+    outs = run_cases(impl, before + [case], tmp)[len(before):]
     fails = spec_failures([case], outs)
-    print(json.dumps(dict(options=case.get('options'), stats=case['stats'], text=outs[0]['texts'][0]['text'],
+    print(json.dumps(dict(options=case.get('options'), stats=case['stats'], earlier_reports=len(before), text=outs[0]['texts'][0]['text'],
                           holds=not fails, why=[f['why'] for f in fails], finding=[f['finding'] for f in fails]), indent=1))
     return 0 if not fails else 1
